@@ -54,10 +54,10 @@ class _AddressList(Writeable):
                     addresses.append(header.address)
                 else:
                     addresses.extend(header.addresses)
-            return List([self._parse(address)
-                         for address in addresses])
-        else:
-            return Nil()
+            if addresses:
+                return List([self._parse(address)
+                             for address in addresses])
+        return Nil()
 
     def write(self, writer: WriteStream) -> None:
         self._value.write(writer)
@@ -150,7 +150,8 @@ class EnvelopeStructure(Writeable):
     @property
     def _value(self) -> Writeable:
         datetime: DateTime | Nil = \
-            DateTime(self.date.datetime) if self.date else Nil()
+            DateTime(self.date.datetime) \
+            if self.date and self.date.datetime else Nil()
         return List([datetime,
                      String.build(self.subject),
                      self._addresses(self.from_),
